@@ -1,11 +1,13 @@
 package engine
 
 import (
+	"encoding/hex"
 	"fmt"
 	"math/rand/v2"
 	"strconv"
 	"strings"
 	"time"
+	"unicode/utf8"
 
 	"github.com/bartventer/httpcache/verifsim/kit"
 )
@@ -19,7 +21,7 @@ var selTable = map[string][][]string{
 	"Accept":          {{"text/html", "text/html;q=1.0"}, {"application/json, text/plain;q=0.5", "text/plain;q=0.5,application/json"}, {""}},
 	"X-A":             {{"1"}, {"2"}, {"1X-B2"}, {"12"}, {""}},
 	"X-B":             {{"2"}, {"1"}, {"X-A1"}, {""}},
-	"X-Tenant":        {{"alpha"}, {"beta"}, {""}},
+	"X-Tenant":        {{"alpha"}, {"beta"}, {"caf\xe9"}, {""}}, // obs-text (a byte >= 0x80) is a legal field value
 	// credentials that differ only after the first token (one spelling per meaning: nothing is claimed equivalent)
 	"Authorization": {{`OAuth oauth_consumer_key="app", oauth_token="alice"`}, {`OAuth oauth_consumer_key="app", oauth_token="bob"`}, {`Digest realm="api", username="alice", nonce="n1"`}, {`Digest realm="api", username="bob", nonce="n1"`}, {"Bearer tok1"}, {"Bearer tok2"}, {""}},
 }
@@ -393,7 +395,10 @@ func (g *gen) selHeaders(res *Resource, b *bias) [][2]string {
 			if g.chance(b.pRespell) {
 				v = m[g.IntN(len(m))]
 			}
-			if v != "" {
+			if v != "" && !utf8.ValidString(v) {
+				// scenarios are JSON: bytes that are not UTF-8 travel hex-encoded and are decoded when the request is built
+				out = append(out, [2]string{f, "hex:" + hex.EncodeToString([]byte(v))})
+			} else if v != "" {
 				if parts := strings.Split(v, ","); len(parts) > 1 && g.chance(b.pMultiLine) {
 					for _, pt := range parts { // the same list sent as several field lines
 						out = append(out, [2]string{f, strings.TrimSpace(pt)})
